@@ -243,6 +243,19 @@ func engineCacheHist(ctx *Ctx) {
 				o.ContextBoosts = bm
 				seq = append(seq, o)
 			}
+			if ctx.G(h)%8 == 7 {
+				// ... every one of them with a boost that is not a finite number for a word the query does not hold (requests
+				// that cannot be written down as JSON are identified some other way)
+				nf := []float64{math.NaN(), math.Inf(1), math.Inf(-1)}[r.Intn(3)]
+				for i := range seq {
+					bm := map[string]float64{"zzunrelated": nf}
+					for k, v := range seq[i].ContextBoosts {
+						bm[k] = v
+					}
+					seq[i].ContextBoosts = bm
+				}
+				ctx.R.Path("look-alike-sequences-with-a-non-finite-boost", 1)
+			}
 			lcdb := database.NewCachedDatabase(db)
 			for _, k := range r.Perm(len(seq)) {
 				o := seq[k]
